@@ -151,6 +151,16 @@ func checkF(target interface{}, args []interface{}) (hasContext, isNamespace boo
 		return false, false, fmt.Errorf("wrong number of arguments for target, got %d for %T", len(args), target)
 	}
 
+	for i := x; i < t.NumIn(); i++ {
+		paramT := t.In(i)
+		if t.IsVariadic() && i == t.NumIn()-1 {
+			paramT = paramT.Elem()
+		}
+		if !argTypes[paramT] {
+			return false, false, fmt.Errorf("argument %d (%s), is not a supported argument type", i, paramT)
+		}
+	}
+
 	for _, arg := range args {
 		argT := t.In(x)
 		if t.IsVariadic() && x == t.NumIn()-1 {
